@@ -329,3 +329,7 @@ PROPS["C02"]["mir"].append(ob("blob_meta_lookup", "ob_blobread", "blob_meta_look
 
 PROPS["C06"]["kani"].append(H("c06_classify_foreign_errors", "should_save_corrupted_blob: an error that is not a pearl Error (plain I/O error, ad-hoc anyhow error) never quarantines a blob",
                               ["Storage::should_save_corrupted_blob"], "one ad-hoc anyhow error, one io::Error (PermissionDenied)", covers=2, timeout=600))
+PROPS["C11"]["mir"] += [ob("replace_keeps_old_blob", "ob_worker", "replace_keeps_old_blob"), ob("rotation_decision_c11", "ob_worker", "rotation_decision"),
+                        ob("rotation_request_c11", "ob_worker", "rotation_request")]
+PROPS["C04"]["mir"] += [ob("replace_keeps_old_blob_c04", "ob_worker", "replace_keeps_old_blob")]
+PROPS["C14"]["mir"] += [ob("replace_keeps_old_blob_c14", "ob_worker", "replace_keeps_old_blob")]
